@@ -53,13 +53,15 @@ def prep_table(rep, rule, k, with_threshold, override, narrow=False):
             def code(I):
                 tg, objs = build_tg(I, [("interval", "T", ents, tm, tM) if narrow else ("interval", "T", ents), ("point", "P", pts)], m, M)
                 d = I.call_function(todict, [tg], {})
+                I.tolerance_calls = 0
                 res = I.call_function(fn, [d, blank, lo, hi, L], {})
+                tol = I.tolerance_calls
                 tiers = I.iterate(res.d["tiers"])
                 t = tiers[0].d
                 p = tiers[1].d
                 return {"xmin": res.d["xmin"], "xmax": res.d["xmax"], "entries": [Tup(list(I.iterate(e))) for e in I.iterate(t["entries"])],
                         "points": [Tup(list(I.iterate(e))) for e in I.iterate(p["entries"])],
-                        "receiver": [Tup(list(e.items)) for e in I.iterate(I.getattr(objs[0], "entries"))],
+                        "tolerance": tol, "receiver": [Tup(list(e.items)) for e in I.iterate(I.getattr(objs[0], "entries"))],
                         "tier_spans": [(x["xmin"], x["xmax"], I.getattr(o, "minTimestamp"), I.getattr(o, "maxTimestamp")) for x, o in ((t, objs[0]), (p, objs[1]))]}
             got, I = run_code(idx, st, code)
             want = run_spec(idx, st, lambda O: specs.save_prep_interval(O, ents, m, M, lo, hi, blank, L))
@@ -79,6 +81,8 @@ def prep_table(rep, rule, k, with_threshold, override, narrow=False):
                     for which, (a, b, ma, mb) in zip(("interval", "point"), g["tier_spans"]):
                         if not (num_equal(I, a, ma) and num_equal(I, b, mb)):
                             return "%s tier is written with span (%r, %r), in memory it has (%r, %r)" % (which, a, b, ma, mb)
+                if g["tolerance"]:
+                    return "the save preparation compares times with a tolerance (isclose) where the property decides by the threshold alone: a stretch longer than the threshold but within the tolerance is neither filled nor absorbed (gap in the written tier)"
                 if len(g["receiver"]) != len(ents):
                     return "the textgrid's own tier was modified while preparing the save"
                 if blank and g["entries"]:
@@ -139,3 +143,6 @@ def run(rep, tier):
     rep.rule("C-exact / W-doc", "boundaries are written exactly: numToStr is repr or the compared integer (tolerance <= 1e-14), and in the emitted text every time is such a numeral, free-standing and in its place (shared with C01/C02)")
     R.rule_exact_formatter(rep)
     R.rule_written_document(rep, tier)
+    # 'a minTimestamp/maxTimestamp override becomes the file's span' in the plain-json document too
+    rep.rule("C-keys", "the dictionary pipeline interpreted on a generic textgrid (shared with C01-C03), including a span override narrower than the tiers' own spans: the plain-json document carries the requested span")
+    R.rule_json_protocol(rep)
